@@ -69,8 +69,15 @@ def match_known(prop, signature):
     return None
 
 
-def finish(prop, violations, known_hits, harness_errors):
-    """Print result lines and return the exit code."""
+def finish(prop, violations, known_hits, harness_errors, unreproduced=()):
+    """Print result lines and return the exit code.
+    A candidate violation whose minimised file does not reproduce in a fresh interpreter is never reported as a
+    violation. If other violations of the same batch do reproduce it is only noted; if none does, the batch is a
+    harness problem (exit 2) that needs a human, never exit 0."""
+    for u in unreproduced:
+        print(f"NOTE property={prop} unreproduced candidate dropped: {u}", file=sys.stderr)
+    if unreproduced and not violations:
+        harness_errors = list(harness_errors) + [f"{len(unreproduced)} candidate violation(s) did not reproduce in a fresh interpreter"]
     for k in known_hits:
         print(f"KNOWN-FINDING: property={prop} {k}")
     for path in violations:
